@@ -43,4 +43,10 @@ CHECKS = {
   "text": "Three layers: (1) for every generated structure, heavy-atom bond sets, protein/ion groups, centres, desolvation terms and buried counts are equal in both frames; (2) for amino-acid structures with hydrogens supplied (keep-protons) the entire record is equal within 1e-9; (3) when the program builds the hydrogens, hydrogen sets correspond one-to-one within a grid step and the moved-frame record equals the frame-0 keep-protons record obtained by feeding the moved frame's hydrogens back (the 'explained difference' oracle: the only allowed difference is the rounding of constructed hydrogens).",
   "note": "Exact threshold ties (bond cut-offs in integer arithmetic; 15/20 A cut-offs within 1e-6 A) are excluded and counted. Open findings F8 (ambiguous C-terminal carbon) and F11 (frame-dependent rotamer for hydrogens on atoms with a single heavy neighbour) are excluded by signatures computed from the input with the all-pairs reference bond rule. Severely clashing threaded side chains (spurious bonds) are not generated for this property.",
  },
+ "C05": {
+  "level": "exploration",
+  "technique": "metamorphic/differential property-based testing (Hypothesis): union of two generated structures at generated separations vs. each part alone",
+  "text": "Pairs of generated structures (independent, or a structure and its own copy with the same or fresh chain ids) are separated by a bounding-box gap from 25.001 A up to the limit of the PDB coordinate field (A pushed to the opposite corner), in both file orders; the union's records restricted to a part must equal the part run alone (1e-9) and no separation may raise. Fixed finding F4 (>1000 A) is a permanent regression case.",
+  "note": "Separation is a bounding-box gap along one axis (>= 25 A between nearest atoms, the statement's sufficient condition). Parts are always separated by a TER record. Sampled.",
+ },
 }
